@@ -306,3 +306,36 @@ func VerifC13TwoDestinations() {
 	verifrt.Assert("c13.two.healthy-destination-gets-each-value-exactly-once", verifrt.And(n1 == 1, n2 == 1))
 	verifrt.Reach("c13-two-destinations")
 }
+
+// VerifC13TimestampSchedule: the timestamp a value carries is the reporter's clock reading at
+// the Report call, not a later one.  The clock goroutine runs (symbolic non-decreasing
+// readings) and every schedule with at most 2 preemptions of {caller, batching goroutine, clock
+// goroutine} is explored: the value may sit in the queue across a clock update.  Binary
+// protocol (fixed-width timestamps: the symbolic readings do not fork the encoder).
+func VerifC13TimestampSchedule() {
+	t0 := now()
+	r, addr := vLight(Binary, 4, 1440, true)
+	r.now.Store(t0)
+	c := r.AllocateCounter("c", nil)
+	verifrt.ExploreOnly("/m3")
+	verifrt.Explore(2)
+	c.ReportCount(7)
+	t1 := now()
+	err := r.Close()
+	verifrt.StopExplore()
+	verifrt.Assert("c13.timestamp.close-ok", err == nil)
+	found := 0
+	for _, b := range vDecode(addr, Binary) {
+		for i := range b.batch.Metrics {
+			m := &b.batch.Metrics[i]
+			if m.Name != "c" {
+				continue
+			}
+			found++
+			verifrt.Assert("c13.timestamp.not-before-construction", m.Timestamp >= t0)
+			verifrt.Assert("c13.timestamp.not-after-the-call", m.Timestamp <= t1)
+		}
+	}
+	verifrt.Assert("c13.timestamp.delivered-once", found == 1)
+	verifrt.Reach("c13-timestamp-schedule")
+}
